@@ -45,6 +45,8 @@ def dyn_family(V, rng, tier):
     fam.append(((2, 0, 1), (3, 4, 3), (3, 2, 1)))
     fam.append(((0, 0, 1, 0), (2, 3, 2, V + 2), (2, 2, 1, V)))
     if tier == "thorough":
+        fam.append(((0, 0, 1, 0, 0), (2, 2, 2, 3, V + 2), (1, 2, 1, 2, V)))       # rank 5
+        fam.append(((0, 2, 0, 1, 0), (2, 2, 3, 2, 2 * V + 1), (2, 2, 2, 1, V + 1)))
         for _ in range(10):
             rk = rng.choice([1, 2, 2, 3, 3, 4])
             res = [rng.randint(1, 3) for _ in range(rk - 1)] + [rng.choice([1, small, V, V + 1, 2 * V, 3 * V + 1])]
@@ -140,6 +142,18 @@ def sym_groups(tier, seed):
                 calls.append("run_mview<Sym%d,%s,%s,%s>(%d,%d,%du);" % (sz, kinds(ks), dims(par), dims(res), smax, cap, seed * 13 + n))
             calls = list(dict.fromkeys(calls)); gi += 1
             groups.append({"key": "%s/sz%d" % (isa, sz), "header": "views_sym.h", "isa": isa, "opt": "-O0", "calls": calls})
+    if tier == "thorough":
+        # the C++17 branches (if constexpr in the fixed views): one group again under -std=c++17
+        for g in [g for g in groups if g["key"] in ("avx2/sz4", "avx512/sz8")]:
+            groups.append(dict(g, key=g["key"] + "/cxx17", std="c++17"))
+    # diagonal views (flat evaluators + trivial_assign), one unit per ISA
+    for isa in isas:
+        calls = []
+        for sz in (4, 8):
+            V = lanes(isa, sz)
+            for n in sorted(set([max(2, V - 1), V, 2 * V + 1] + ([V + 1, 3 * V] if tier == "thorough" else []))):
+                calls.append("run_diag<Sym%d,%d>();" % (sz, n))
+        groups.append({"key": "%s/diag" % isa, "header": "views_diag.h", "isa": isa, "opt": "-O0", "calls": calls})
     # scalar indexing (all ranks: 1..4 written out, >= 5 the generic loop) with and without the bounds assertion; iseq
     capi = 300 if tier == "quick" else 3000
     sidx = []
@@ -167,6 +181,8 @@ def real_groups(tier, seed):
     groups = []
     for isa in isas:
         for t in RTYPES:
+            if isa == "scalar" and "complex" in t:
+                continue      # compile acceptance: with FASTOR_DONT_VECTORISE no vector_setter overload matches complex<double>
             V = lanes(isa, TSIZE[t])
             dfam = dyn_family(V, rng, tier); ffam = fix_family(V, rng, tier)
             if tier == "quick":
@@ -183,10 +199,21 @@ def real_groups(tier, seed):
             if tier == "thorough" and isa in ("sse2", "avx2", "avx512"):
                 groups.append({"key": "%s/%s/ndebug" % (isa, tname(t)), "header": "views_real.h", "isa": isa, "opt": "-O2", "defs": ["-DNDEBUG"], "calls": calls,
                                "std": "c++17"})
+    for isa in isas:
+        calls = []
+        for t in RTYPES:
+            if isa == "scalar" and "complex" in t:
+                continue
+            V = lanes(isa, TSIZE[t])
+            for n in sorted(set([V, 2 * V + 1] + ([max(2, V - 1), 3 * V] if tier == "thorough" else []))):
+                calls.append("run_rdiag<%s,%d>();" % (t, n))
+        groups.append({"key": "%s/diag" % isa, "header": "views_diag.h", "isa": isa, "opt": "-O2", "calls": calls, "pre": "#define VW_DIAG_REAL"})
     return groups
 
 def nontrivial(inp, mo):
     d = symrun.kv(inp)
+    if inp.startswith("diag"):
+        return True
     if inp.startswith("sidx"):
         return any(int(x) < 0 for x in d.get("I", "0").split(","))
     for ax in d.get("S", "").split(","):
@@ -194,6 +221,20 @@ def nontrivial(inp, mo):
         if len(q) == 4 and (q[0] != "0" or q[2] != "1" or q[3] == "1" or int(q[1]) < 0):
             return True
     return False
+
+def coverage_summary(tier, seed):
+    sg = sym_groups(tier, seed); rg = real_groups(tier, seed)
+    def count(groups, prefix): return sum(1 for g in groups for c in g["calls"] if c.startswith(prefix))
+    return {"instantiations": {"dynamic views (Tensor parent)": count(sg, "run_view<"), "dynamic views (TensorMap parent)": count(sg, "run_mview<"),
+                               "fixed views": count(sg, "run_fix<"), "fixed views with fix<k> integers": count(sg, "run_fixi<"),
+                               "scalar indexing shapes": count(sg, "run_sidx<"), "iseq": count(sg, "run_iseq<"), "diagonal views": count(sg, "run_diag<") + count(rg, "run_rdiag<"),
+                               "real-type dynamic": count(rg, "run_rview<"), "real-type fixed": count(rg, "run_rfix<")},
+            "vector_widths": sorted(set(lanes(g["isa"], int(g["key"][-1])) for g in sg if "/sz" in g["key"])),
+            "size_classes": "per width V: rank-1 extents V-1,V,V+1,2V,2V+1; 2-D last extents <V,V,V+1,2V+1 with steps 1..3; n-D last extents V (contiguous, strided), V+1 and 1 (gather/scalar); rank 4; "
+                            "integers (also negative) and `all` mixtures; const and non-const",
+            "real_type_configs": sorted(g["key"] for g in rg),
+            "evaluators_probed": ["size", "dimension", "eval_s(i)", "eval(i)", "eval_s(i,j)", "eval(i,j)", "teval_s(as)", "teval(as)"],
+            "consumers": ["Tensor r(view)", "r += view", "Tensor r(2*viewA + viewB)", "r = view (real types)"]}
 
 def run(tier, seed):
     return flow.standard_run(
@@ -207,7 +248,7 @@ def run(tier, seed):
              "over the token carrier, compared with the Lean model on values, store order, read sets, vector-load counts, extents and route; scalar-index "
              "lines: one per index tuple; non-trivial = some axis has first != 0, step != 1, a negative / last-relative spelling or an integer "
              "(scalar indexing: some negative index)",
-        nontrivial=nontrivial, per_tu=11)
+        nontrivial=nontrivial, per_tu=11, extra_cov=coverage_summary(tier, seed))
 
 def vsize(q, D, is1d=False):
     f, l, s, i = q
@@ -221,6 +262,9 @@ def vsize(q, D, is1d=False):
 def sym_call_of(inp):
     d = symrun.kv(inp)
     g = {"key": "replay", "header": "views_sym.h", "isa": d["cfg"], "opt": "-O0"}
+    if inp.startswith("diag"):
+        g["header"] = "views_diag.h"; g["calls"] = ["run_diag<Sym%s,%s>();" % (d["sz"], d["n"])]
+        return g
     if inp.startswith("sidx"):
         g["calls"] = ["run_sidx<Sym4,%d,%s>(100000,1u);" % (1 if d["ck"] == "c" else 0, d["D"].replace("x", ","))]
         if d.get("chk") == "0": g["defs"] = ["-DNDEBUG"]
